@@ -676,7 +676,10 @@ where
                     }
                     ChunkCommand::Resume => {
                         //info!("[verify-test] run_vms_child: resume");
-                        let res = scheduler.run(RunMode::Pause(pause_cloned, max_cycles));
+                        // `max_cycles` bounds the whole run, not each stretch between two pauses
+                        let remaining_cycles =
+                            max_cycles.saturating_sub(scheduler.consumed_cycles());
+                        let res = scheduler.run(RunMode::Pause(pause_cloned, remaining_cycles));
                         match res {
                             Ok(_) => {
                                 let _ = finish_tx.send(res);
